@@ -134,18 +134,25 @@ func (bw *BatchedWriter) Enqueue(object BatchWriteObject) {
 		}
 	})
 
+	// announce the object before checking the running flag: the writer only terminates once it has seen
+	// running == false and afterwards scheduledCount == 0, so it can not miss an object announced here.
+	bw.scheduledCount.Add(1)
+
 	// abort if the BatchWriter has been stopped
 	if !bw.running.Load() {
+		bw.scheduledCount.Add(-1)
+
 		return
 	}
 
 	// abort if the very same object has been queued already
 	if object.BatchWriteScheduled() {
+		bw.scheduledCount.Add(-1)
+
 		return
 	}
 
 	// queue object
-	bw.scheduledCount.Add(1)
 	bw.batchQueue <- object
 }
 
